@@ -33,6 +33,7 @@ type Config struct {
 	OpenKF     map[string]bool // known-finding classes that are open
 	Params     map[string]int  // harness parameters (bounds)
 	MaxConcretise int
+	NoSlicing     bool
 }
 
 // Decision is one recorded choice point of a path.
@@ -102,6 +103,7 @@ type pathState struct {
 	choiceN  map[string]int
 	ev       *smt.Evaluator
 	pcSet    map[int]bool
+	pcSupp   []*suppInfo
 	evFor    smt.Model
 }
 
@@ -117,6 +119,8 @@ func NewWorker(cfg *Config) (*Worker, error) {
 		cfg:        cfg,
 		FuncInstrs: map[*ssa.Function]int64{},
 		StubsHit:   map[string]int64{},
+		supp:       map[int]*suppInfo{},
+		varIdx:     map[string]int{},
 	}
 	runtimePkg := cfg.Prog.ImportedPackage("runtime")
 	if runtimePkg == nil {
@@ -390,7 +394,7 @@ func (i *interpreter) decide(c *smt.Term) bool {
 		}
 	}
 	if tFeas != smt.Sat {
-		tFeas, tModel = i.sess.Check(append(p.pc[:len(p.pc):len(p.pc)], c), p.vars)
+		tFeas, tModel = i.query(c)
 		if tFeas == smt.Unknown {
 			p.res.Unknowns++
 		}
@@ -404,7 +408,7 @@ func (i *interpreter) decide(c *smt.Term) bool {
 				}
 			}
 		} else {
-			fFeas, fModel = i.sess.Check(append(p.pc[:len(p.pc):len(p.pc)], nc), p.vars)
+			fFeas, fModel = i.query(nc)
 			if fFeas == smt.Unknown {
 				p.res.Unknowns++
 			}
@@ -467,7 +471,7 @@ func (i *interpreter) concretiseTerm(t *smt.Term, what string) uint64 {
 	}
 	var vals []uint64
 	var models []smt.Model
-	excl := append([]*smt.Term(nil), p.pc...)
+	var excl []*smt.Term
 	// first candidate from the current model
 	if p.model != nil && !hasUF(t) {
 		v := i.evaluator().Eval(t)
@@ -476,7 +480,7 @@ func (i *interpreter) concretiseTerm(t *smt.Term, what string) uint64 {
 		excl = append(excl, i.ctx.Not(eqv(v)))
 	}
 	for {
-		r, m := i.sess.Check(excl, append(append([]*smt.Term(nil), p.vars...), freeVars(t)...))
+		r, m := i.query(excl...)
 		if r == smt.Unknown {
 			p.res.Unknowns++
 			panic(pathEnd{kind: "unsupported", msg: "solver undecided while concretising " + what})
@@ -553,7 +557,7 @@ func (i *interpreter) assume(c *smt.Term) {
 		i.addPC(c)
 		return
 	}
-	r, m := i.sess.Check(append(p.pc[:len(p.pc):len(p.pc)], c), p.vars)
+	r, m := i.query(c)
 	switch r {
 	case smt.Unsat:
 		panic(pathEnd{kind: "assume-false"})
@@ -605,11 +609,11 @@ func (i *interpreter) assert(c value, id string, site string) {
 			open = append(open, name)
 		}
 	}
-	q := append(p.pc[:len(p.pc):len(p.pc)], neg)
+	q := []*smt.Term{neg}
 	for _, name := range open {
 		q = append(q, i.ctx.Not(p.classes[name]))
 	}
-	r, m := i.sess.Check(q, p.vars)
+	r, m := i.query(q...)
 	switch r {
 	case smt.Sat:
 		ob.Verdict = "violated"
@@ -621,7 +625,7 @@ func (i *interpreter) assert(c value, id string, site string) {
 		ob.Verdict = "discharged"
 	}
 	for _, name := range open {
-		r, m := i.sess.Check(append(append(p.pc[:len(p.pc):len(p.pc)], neg), p.classes[name]), p.vars)
+		r, m := i.query(neg, p.classes[name])
 		if r == smt.Sat {
 			ob.KF = append(ob.KF, name)
 			if _, ok := p.res.KFSeen[name]; !ok {
